@@ -2,8 +2,8 @@
    Property theorems only.  byteCount and fieldInfo.check are GENERATED from tls/tls.go on
    every run (gen/Tls.v); parse/marshal are the hand model TLS/TlsModel.v, tied to the
    implementation by correspondence on run-time generated types. *)
-From Coq Require Import String NArith List.
-From V Require Import Base.Bytes TLS.TlsModel TLS.TlsLemmas TLS.TlsRoundTripA TLS.TlsRoundTripB TLS.TlsMarshalSafe.
+From Coq Require Import String NArith ZArith List.
+From V Require Import Base.Bytes TLS.TlsModel TLS.TlsLemmas TLS.TlsRoundTripA TLS.TlsRoundTripB TLS.TlsMarshalSafe TLS.TlsGenLoop gen.Tls.
 Import ListNotations.
 Local Open Scope N_scope.
 
@@ -60,6 +60,26 @@ Theorem check_meaning : forall i n, check i n = true ->
   f_count i <= 8 /\ (f_count i = 8 \/ n < 256 ^ f_count i) /\ (f_max i = 0 \/ (f_min i <= n /\ n <= f_max i)).
 Proof. exact check_true. Qed.
 Print Assumptions check_meaning.
+
+(* readVarUint as it stands in tls/tls.go today: its truncation guard and its accumulation loop
+   `result = (result << 8) | uint64(data[i])` are GENERATED on every run (a fuelled while-loop over octets as Z;
+   an out-of-range data[i] would be -1 and the out-of-fuel value is -1).  For every size 0..8 and every input the
+   model's read_var_uint is exactly guard / loop / generated bound check - so the loop computes the big-endian
+   value of the first `count` octets, never reads past the slice and never runs out of fuel *)
+Theorem read_var_uint_as_in_source : forall i data,
+  f_set i = true -> f_count i <= 8 ->
+  read_var_uint (Some i) data =
+  if read_var_truncated_gen (Z.of_nat (length data)) (Z.of_N (f_count i)) then ErrSyntax
+  else let n := Z.to_N (read_var_loop_gen (bzs data) (Z.of_N (f_count i))) in
+       if check i n then Ok (n, skipn (N.to_nat (f_count i)) data) else ErrStruct.
+Proof. exact read_var_uint_gen. Qed.
+Print Assumptions read_var_uint_as_in_source.
+
+Theorem read_loop_is_big_endian : forall d count,
+  (0 <= count <= 8)%Z -> (count <= Z.of_nat (length d))%Z ->
+  read_var_loop_gen (bzs d) count = Z.of_N (be_dec (firstn (Z.to_nat count) d)).
+Proof. exact read_var_loop_meaning. Qed.
+Print Assumptions read_loop_is_big_endian.
 
 (* non-vacuity: the documentation's VariantItem, a Uint24 after another field, an 8-byte enum *)
 Definition variant_item : ty :=
